@@ -26,7 +26,7 @@ ASSUMPTIONS = ['the exact counter in this file states the specification; quality
 REQUIRED = {t: ['rule:none', 'rule:middle', 'rule:strict', 'quality_equal_threshold', 'probes_at_C', 'probes_below_C',
                 'probes_above_C', 'filter_calls_monitored', 'accepts_monitored', 'mincount:1', 'mincount:2', 'mincount:3+',
                 'kmers_included', 'kmers_excluded_by_count'] for t in ('quick', 'thorough')}
-REQUIRED['quick'] = REQUIRED['quick'] + ['large_input_distinct_kmers', 'multi_sample_builds', 'multi_sample_parallel_builds', 'damaged_input_refused', 'auto_mincount_builds', 'auto_width64', 'auto_width128', 'same_file_in_both_columns']
+REQUIRED['quick'] = REQUIRED['quick'] + ['large_input_distinct_kmers', 'multi_sample_builds', 'multi_sample_parallel_builds', 'damaged_input_refused', 'auto_mincount_builds', 'auto_width64', 'auto_width128', 'same_file_in_both_columns', 'builds_with_default_options']
 REQUIRED['thorough'] = REQUIRED['quick']
 RULES = {'none': 'no-filter', 'middle': 'middle', 'strict': 'strict'}
 
@@ -536,6 +536,30 @@ def run_case(desc, ctx):
                     res.violate(sig + ':collision-rate', '%d extra entries among %d distinct k-mers (>= 0.1%%)' % (len(extra), len(counts)), detail)
             if exp and any(c < minc for c in counts.values()):
                 res.nontrivial.append(fingerprint([k, rcmode, rule, minc, minq, desc['seed']]))
+    if not desc.get('large') and desc['seed'] % 6 == 4 and k == 17 or (not desc.get('large') and desc['seed'] % 24 == 5):
+        # no counting option at all: the documented defaults apply (k 17 unless given, --min-count 5, --min-qual 20, strict rule)
+        kd = 17
+        argsd = ['build', '-o', ctx.path('dflt'), '-f', ctx.path('list')]
+        pd_ = ctx.sh(ctx.ska, *argsd)
+        res.evals += 1
+        cd = {}
+        for w in passing_windows(allreads, kd, True, 20, 'strict'):
+            cd[w] = cd.get(w, 0) + 1
+        expd = dictionary(cd, kd, True, 5)
+        if pd_.returncode != 0:
+            if expd:
+                res.violate('C12:defaults-failed', 'build with default options fails although %d k-mers qualify under the documented defaults: %s' % (len(expd), pd_.stderr.strip()[-150:]), detail)
+            else:
+                res.count('defaults_nothing_qualifies')
+        else:
+            _hd, Td = G.nk(ctx, ctx.path('dflt.skf'))
+            lostd = [a for a in expd if a not in Td]
+            otherd = [a for a in Td if Td[a] != [expd.get(a)]]
+            if lostd or len(otherd) > max(1, len(cd) // 1000) or _hd.get('k') != '17':
+                res.violate('C12:defaults', 'build with default options (k=%s): %d k-mers that qualify under the documented defaults (k 17, min-count 5, min-qual 20, strict) are missing, %d entries differ'
+                            % (_hd.get('k'), len(lostd), len(otherd)), detail)
+            else:
+                res.count('builds_with_default_options')
     if not desc.get('large') and desc['seed'] % 6 == 3:
         # the same file named in both columns of the list: every window is then seen twice ("across both files")
         ctx.write('list2', 'S\t%s\t%s\n' % (ctx.path('r0.fastq'), ctx.path('r0.fastq')))
